@@ -235,6 +235,9 @@ def closure(unit, units):
 
 def build_c(unit, units, outdir, defines=()):
     os.makedirs(outdir, exist_ok=True)
+    # the unit handed in may be a modified copy (triage variants): it is the one that gets rendered
+    units = dict(units)
+    units[unit['name']] = unit
     if unit.get('base_uses'):
         # a base-class method called on `this`: the contract of the base unit is used VERBATIM (same text, same prelude), only the
         # self struct is the derived one -- inherited members have the same names, so the clauses mean the same thing
